@@ -23,6 +23,11 @@ pub enum Payload {
     FakeMagic(Vec<u8>),
     /// a valid message stream
     Messages(Vec<MsgSpec>),
+    /// a payload that itself looks like an LDM record: four arbitrary bytes, "BZ", then arbitrary bytes (bytes 4..6 of the
+    /// *payload* spell the magic although nothing is compressed there)
+    RecordLike([u8; 4], Vec<u8>),
+    /// a payload that IS a complete LDM record (size prefix + bzip2 of the inner payload): a doubly wrapped record
+    WrappedRecord(Box<Payload>),
 }
 
 impl Payload {
@@ -55,6 +60,13 @@ impl Payload {
                 v
             }
             Payload::Messages(m) => encode_stream(m).0,
+            Payload::RecordLike(prefix, rest) => {
+                let mut v = prefix.to_vec();
+                v.extend_from_slice(b"BZ");
+                v.extend_from_slice(rest);
+                v
+            }
+            Payload::WrappedRecord(inner) => encode_record(&bzip2_compress(&inner.bytes(), 5), false),
         }
     }
 }
@@ -191,7 +203,9 @@ fn payload_strategy() -> BoxedStrategy<Payload> {
     ];
     prop_oneof![
         8 => leaf.clone(),
-        1 => leaf.prop_map(|p| Payload::Nested(Box::new(p))),
+        1 => leaf.clone().prop_map(|p| Payload::Nested(Box::new(p))),
+        1 => (any::<[u8; 4]>(), prop_oneof![Just(Vec::new()), vec(any::<u8>(), 1..=60), Just(b"h91AY&SY".to_vec())]).prop_map(|(p, r)| Payload::RecordLike(p, r)),
+        1 => leaf.prop_map(|p| Payload::WrappedRecord(Box::new(p))),
     ]
     .boxed()
 }
@@ -226,6 +240,7 @@ pub fn classify(c: &FileCase) -> CaseInfo {
         .class(zero_body, "zero-length-body")
         .class(c.records.iter().any(|r| matches!(&r.body, Body::Compressed { payload: Payload::Nested(_), .. })), "payload-is-bzip2")
         .class(c.records.iter().any(|r| matches!(&r.body, Body::Compressed { payload: Payload::FakeMagic(_), .. })), "payload-starts-with-magic")
+        .class(c.records.iter().any(|r| matches!(&r.body, Body::Compressed { payload: Payload::RecordLike(..) | Payload::WrappedRecord(_), .. })), "payload-looks-like-a-record")
         .class(c.records.iter().any(|r| matches!(&r.body, Body::Compressed { payload: Payload::Pattern { len, .. }, .. } if *len >= 60_000)), "payload-64KiB")
         .class(c.records.iter().any(|r| matches!(&r.body, Body::RawLooksCompressed(_))), "raw-looks-compressed")
         .class(std::str::from_utf8(&c.header.tape).is_err() || std::str::from_utf8(&c.header.icao).is_err(), "header-not-utf8")
